@@ -393,6 +393,7 @@ fn child_main(ord: usize, sh: Arc<Shared>, early: Option<(usize, Vec<u8>, Exit)>
     // Write stdout, then stderr, through pipes of kernel size: a child that prints more than the parent
     // reads blocks, exactly like a real prover whose parent polls without draining the pipes.
     let mut blocked_on_output = false;
+    let out_piece = state::with(|s| s.plan().out_piece);
     for (is_err, data) in [(false, &outcome.stdout), (true, &outcome.stderr)] {
         let mut pos = 0;
         while pos < data.len() {
@@ -411,7 +412,11 @@ fn child_main(ord: usize, sh: Arc<Shared>, early: Option<(usize, Vec<u8>, Exit)>
                 break;
             }
             let space = g.out_cap - if is_err { g.err.len() } else { g.out.len() };
-            let n = space.min(data.len() - pos);
+            let mut n = space.min(data.len() - pos);
+            if out_piece > 0 {
+                // at most 64 pieces per stream, so that a long proof does not cost scheduler steps without end
+                n = n.min(out_piece.max(data.len() / 64));
+            }
             if is_err {
                 g.err.extend(&data[pos..pos + n]);
             } else {
